@@ -80,7 +80,7 @@ impl Check for C06 {
         "C06"
     }
     fn rule(&self) -> &'static str {
-        "case = 1-4 modes sharing token types, sorted transition tables with 0-4 entries (self-loops, transitions on token types of other modes, transitions nobody triggers), one input, a history of next | peek_n | set_mode | current_mode | mode_name on an iterator plus Scanner::set_mode and creation of fresh iterators; oracle = mode-tracking model compared after every step: each returned token must be a candidate of the model's current mode, current_mode() must equal the model mode (transition target after a token with a transition, unchanged otherwise and after peeks, m after set_mode(m)), mode_name(i) the configured name or None, every new iterator starts in mode 0; non-trivial = a transition fired and a token without transition was consumed in a mode != 0"
+        "case = 1-4 modes sharing token types, sorted transition tables with 0-4 entries (self-loops, transitions on token types of other modes, transitions nobody triggers), one input, a history of next | peek_n | set_mode | set_offset | with_offset (on the iterator in use) | current_mode | mode_name on an iterator plus Scanner::set_mode and creation of fresh iterators; oracle = mode-tracking model compared after every step: each returned token must be a candidate of the model's current mode, current_mode() must equal the model mode (transition target after a token with a transition, unchanged otherwise and after peeks, m after set_mode(m)), mode_name(i) the configured name or None, every new iterator starts in mode 0; non-trivial = a transition fired and a token without transition was consumed in a mode != 0"
     }
     fn cases(&self, thorough: bool) -> usize {
         if thorough {
@@ -94,7 +94,17 @@ impl Check for C06 {
         let nm = case.modes.len();
         let nops = 4 + d.below(if thorough { 40 } else { 26 });
         for _ in 0..nops {
-            case.ops.push(match d.weighted(&[12, 3, 3, 2, 2, 1, 1]) {
+            case.ops.push(match d.weighted(&[12, 3, 3, 2, 2, 1, 1, 2]) {
+                7 => {
+                    // repositioning (either way) must not touch the mode
+                    let t = Text::new(case.input());
+                    let o = t.offs[d.below(t.offs.len())];
+                    if d.bool() {
+                        Op::RebaseWithOffset { o }
+                    } else {
+                        Op::SetOffset { o }
+                    }
+                }
                 0 => Op::Next,
                 1 => Op::PeekN { n: gen::gen_peek_n(d, 5) },
                 2 => Op::SetMode { m: d.below(nm) },
@@ -120,6 +130,8 @@ impl Check for C06 {
         for op in &case.ops {
             match op {
                 Op::Next | Op::PeekN { .. } | Op::CurrentMode | Op::ModeName { .. } => {}
+                Op::SetOffset { o } | Op::RebaseWithOffset { o }
+                    if *o <= case.input().len() && case.input().is_char_boundary(*o) => {}
                 Op::SetMode { m } if *m < nm => {}
                 Op::ScannerSetMode { s: 0, m } if *m < nm => {}
                 Op::Create { s: 0, inp: 0 } => {}
@@ -228,6 +240,16 @@ impl Check for C06 {
                         st.count("scanner_set_mode_calls");
                         // must not affect the live iterator
                         expect_mode(&it, mode, "Scanner::set_mode on the scanner")?;
+                    }
+                    Op::SetOffset { o } => {
+                        it.set_offset(*o);
+                        st.count("repositionings");
+                        expect_mode(&it, mode, "set_offset")?;
+                    }
+                    Op::RebaseWithOffset { o } => {
+                        it = it.with_offset(*o);
+                        st.count("repositionings");
+                        expect_mode(&it, mode, "with_offset on the iterator in use")?;
                     }
                     Op::Create { .. } => {
                         it = scanner.find_iter(input);
